@@ -9,7 +9,7 @@ from .common import info
 def run(ctx):
     RR.bounded_selection(ctx, "R06.a")
     RR.limit_provenance(ctx, "R06.a")
-    RR.search_chain_shape(ctx, "R06.a", parts=("order", "score", "filter", "comparator", "result-id", "branch"))
+    RR.search_chain_shape(ctx, "R06.a", parts=("order", "complete", "score", "filter", "comparator", "result-id", "branch"))
     RT.candidate_cap(ctx, "R06.b", minimum=10)
     RT.positivity_filter(ctx, "R06.b")
     RS.reset_before_read(ctx, "R06.c", floor=12)
